@@ -6,7 +6,7 @@ SEEDS="$@"; [ -z "$SEEDS" ] && SEEDS=$(ls -d seeded/*/)
 for s in $SEEDS; do
   name=$(basename $s)
   git -C /repo diff --quiet || { echo "/repo dirty"; exit 2; }
-  git -C /repo apply $s/patch.diff 2>/dev/null || { echo "$name: patch does not apply"; continue; }
+  git -C /repo apply "$(pwd)/$s/patch.diff" 2>/dev/null || { echo "$name: patch does not apply"; continue; }
   for id in $CHECKS; do
     cp evidence/$id.json /tmp/ev-$id.bak 2>/dev/null
     ./check $id quick > /tmp/matrix-$name-$id.log 2>&1; rc=$?
